@@ -347,10 +347,11 @@ impl Check for C17 {
             }
             // min_sentence(s) does not return on grammars with a derivation cycle (a zero-cost cycle
             // can be chosen for ever), so for those it is only called in a subprocess probe with a
-            // timeout (sampled: one cyclic grammar in 12)
+            // timeout (sampled: one cyclic grammar in 12; the selector is spread so that every worker
+            // shard gets its share of the slow probes)
             if cyclic {
                 min_ok = false;
-                if cf == 0 && idx % 12 == 0 {
+                if cf == 0 && (idx / 16 + idx) % 12 == 0 {
                     out.evals += 1;
                     out.count("min_sentence_probes_on_cyclic_grammars", 1);
                     match probe_min_cost(seed, idx) {
